@@ -28,11 +28,11 @@ RULE = (
     "array coming back as float) is not judged here - C05 judges kinds. Persistence of a definition is judged against a pinned list of names."
 )
 TOLERANCES = {"recomputed_rel": 1e-9}
-FLOORS = {"quick": {"law.roundtrip-labelled-state-point": 5, "law.roundtrip-labelled-state-point/layout-differs-from-plain-node": 3, "law.roundtrip": 12, "law.load-twice": 12, "law.idempotent": 6, "law.roundtrip-later-node": 8, "nodes.compared": 3000,
+FLOORS = {"quick": {"law.second-write-to-a-written-node": 4, "law.roundtrip-labelled-state-point": 5, "law.roundtrip-labelled-state-point/layout-differs-from-plain-node": 3, "law.roundtrip": 12, "law.load-twice": 12, "law.idempotent": 6, "law.roundtrip-later-node": 8, "nodes.compared": 3000,
                     "law.roundtrip/thrz": 1, "history.third-core-with-edge-assemblies": 2, "loaded-tree.parent-links": 10000, "loaded-tree.core-lookups": 1500,
                     "persistence.definitions-pinned": 3000, "workload.nodefault-column-fully-assigned": 12,
                     "classify.recomputed-judged-against-original": 2500},
-          "thorough": {"law.roundtrip-labelled-state-point": 60, "law.roundtrip-labelled-state-point/layout-differs-from-plain-node": 40, "law.roundtrip": 150, "law.load-twice": 150, "law.idempotent": 60, "law.roundtrip-later-node": 80, "nodes.compared": 60000,
+          "thorough": {"law.second-write-to-a-written-node": 40, "law.roundtrip-labelled-state-point": 60, "law.roundtrip-labelled-state-point/layout-differs-from-plain-node": 40, "law.roundtrip": 150, "law.load-twice": 150, "law.idempotent": 60, "law.roundtrip-later-node": 80, "nodes.compared": 60000,
                        "law.roundtrip/thrz": 4, "history.third-core-with-edge-assemblies": 8, "loaded-tree.parent-links": 100000, "loaded-tree.core-lookups": 15000,
                        "persistence.definitions-pinned": 5000, "workload.nodefault-column-fully-assigned": 150,
                        "classify.recomputed-judged-against-original": 25000}}
@@ -748,6 +748,34 @@ def roundtrip(rec, rng, r, cs, bp, w, kind):
                 compare(rec, oS, obs.obs(rS), ctxS, "roundtrip/", dict(w, did=did, which="state point %r of the same cycle and node" % lab), limit=200)
                 rP = db.load(cyc, node, cs=cs, bp=bp)
                 compare(rec, o0b, obs.obs(rP), ctx, "roundtrip/", dict(w, did=did, which="plain node, after state point %r was written beside it" % lab), limit=200)
+            if rng.random() < .35:
+                # a second write to the node that is already in the file, after two assemblies were exchanged: refused (the file keeps the
+                # first state) or accepted (the file then holds the second state) - never layout of one and parameters of the other
+                try:
+                    A_ = list(r.core)
+                    if len(A_) >= 2:
+                        a1, a2 = rng.sample(A_, 2)
+                        l1, l2 = a1.spatialLocator, a2.spatialLocator
+                        a1.moveTo(l2)
+                        a2.moveTo(l1)
+                        rng.choice(a1.getChildren()).p.power = rng.uniform(1, 100)
+                except Exception as e:
+                    rec.crash("pre-rewrite-op", e, w)
+                obs.obs(r)
+                r.sort()
+                oR = obs.obs(r)
+                rec.hit("law.second-write-to-a-written-node")
+                try:
+                    db.writeToDB(r)
+                    accepted = True
+                except Exception:
+                    accepted = False
+                    rec.reject("second write to a node already in the file refused")
+                rR = db.load(cyc, node, cs=cs, bp=bp)
+                if accepted:
+                    compare(rec, oR, obs.obs(rR), Ctx(r, oR), "roundtrip/", dict(w, which="node written twice, the second write was accepted"), limit=200)
+                else:
+                    compare(rec, o0b, obs.obs(rR), ctx, "roundtrip/", dict(w, which="node whose second write was refused"), limit=200)
             if rng.random() < .7:
                 # a later time node of the SAME in-memory reactor, after changes that touch grids: conversion to full core,
                 # pitch change, block height (axial grid bounds) and a little more history
